@@ -18,6 +18,10 @@ CLAIMED = {
   "Lean 4 theorems about the real-number reading of typhon/physics/em.py regenerated from /repo by tools/py2lean on every run (20 theorems: planck positive, strictly increasing in T, <= Rayleigh-Jeans, ratio x/(e^x-1) -> 1 as hf/kT -> 0 (Filter.Tendsto), radiance2planckTb and radiance2rayleighjeansTb invert planck / rayleighjeans, wavelength and wavenumber forms, all six unit converters mutually inverse and consistent, pointwise inverses of the four spectral-density converters and that they map planck onto planck_wavelength / planck_wavenumber, Snell's law without total reflection, |Rv|,|Rh| <= 1, |Rv| = |Rh| at normal incidence and Rv = 0 at the Brewster angle for real indices).  A breaking source change breaks a proof; the check then finds a failing input on the real code with a longdouble expm1/log1p oracle.",
   "Trusted: Lean kernel + 3 standard axioms; translator tools/py2lean (Float cross-run against numpy each run).  Float cancellation, array reversal/reshape glue of the density converters, NaN beyond total reflection and complex refractive indices are validated by the harness only.",
   "Lean 4 proof over a model regenerated from the source by a translator (py2lean) + Float cross-run + high-precision oracle"),
+ "C19": ("numeric",
+  "Lean 4 theorems about the pointwise terms of typhon/retrieval/scores.py regenerated from /repo by tools/py2lean on every run: quantile_score is the pinball loss (tau|d| below, (1-tau)|d| above, non-negative, zero iff equal) and - for EVERY finite sample and tau in [0,1] - any constant c with #{y<c} <= tau n <= #{y<=c} minimises mean_quantile_score (C19_minimiser_is_quantile, by summing per-point sub-gradient inequalities over the list); mape and bias are 0 for perfect predictions, p / +-p for uniform p% offsets, permutation- and scale-invariant.  A breaking source change breaks a proof; the check then finds a failing sample on the real code with an exact-Fraction oracle.",
+  "Trusted: Lean kernel + 3 standard axioms; translator tools/py2lean incl. its reading of the top-level np.mean/np.nanmean as the mean of the emitted pointwise term (Float cross-run + array-level oracle each run).  Array reshaping for (n,), (n,1), (n,k) and the ValueError for inconsistent shapes are glue exercised by the harness only.",
+  "Lean 4 proof over a model regenerated from the source by a translator (py2lean) + Float cross-run + exact oracle"),
 }
 NOT_YET = "no Lean model built yet for this property (under construction; see DESIGN.md section 6) - not claimed rather than served by another technique"
 
